@@ -54,7 +54,7 @@ def params(draw, row, N, cplx, windows=None):
     if row == "Periodogram":
         return {"window": draw(st.sampled_from(windows or WINDOWS_SIMPLE))}
     if row == "pcorrelogram":
-        return {"lag": draw(st.integers(1, max(1, N // 2))), "window": draw(st.sampled_from(windows or WINDOWS_SIMPLE))}
+        return {"lag": draw(st.integers(1, max(1, (N - 1) // 2))), "window": draw(st.sampled_from(windows or WINDOWS_SIMPLE))}
     if row == "pburg":
         return {"order": draw(st.integers(1, min(N // 2, 12)))}
     if row == "pyule":
@@ -146,3 +146,26 @@ def attr(obj, name):
     if v is None:
         return None
     return np.atleast_1d(np.asarray(v))
+
+
+def compare_psd(ctx, row, got, exp, msg, sig=None, tol=None):
+    """Row-aware comparison of two PSD vectors (DESIGN 2.7).
+
+    * Fourier-type rows: max|a-b| <= 1e-6 max|b| (a periodogram may contain
+      exact zeros, a correlogram negative values).
+    * strictly positive model spectra: additionally per bin (1e-6; ARMA 1e-4).
+    * MUSIC / EV: the pseudo-spectrum is 1/D(f) with D the noise-subspace
+      projection, which may vanish on the grid (the estimate is then a huge
+      number made of rounding noise).  The computed quantity D = 1/psd is
+      compared instead, with the same max-norm tolerance."""
+    got = np.real(np.asarray(got))
+    exp = np.real(np.asarray(exp))
+    if row in ("pmusic", "pev", "music", "ev"):
+        if got.shape != exp.shape:
+            ctx.fail("%s: shape %s != %s" % (msg, got.shape, exp.shape), sig=sig)
+        ctx.check(np.all(got > 0) and np.all(exp > 0), "%s: pseudo-spectrum not strictly positive" % msg, sig=sig)
+        with np.errstate(divide="ignore"):
+            ctx.vclose(1.0 / got, 1.0 / exp, msg + " [compared as 1/pseudo-spectrum]", tol=tol or 1e-6, sig=sig)
+        return
+    t = tol or (1e-4 if row == "parma" else 1e-6)
+    ctx.vclose(got, exp, msg, tol=t, per_bin=PER_BIN.get(row), sig=sig)
